@@ -337,7 +337,39 @@ def build_stuck(p):
     return {"contracts": [t], "test": sig, "truth": truth, "concrete_loop": False}
 
 
-BUILDERS = {"regular": build_regular, "depth": build_depth, "width": build_width, "setup": build_setup, "invariant": build_invariant,
+def build_stuck_setup(p):
+    """setUpSymbolic(uint256 x): <unsupported feature: in the body ("top") or in a helper created and called here
+    ("call")>; slot0 = 1.   check_flag(): if (slot0 == 1) Panic(1).
+    Every concrete setUpSymbolic(x) (small x) completes and sets the flag, so check_flag() fails; halmos cannot
+    continue the only path of setUp: no test of the contract may be a clean PASS."""
+    ssig, tsig = "setUpSymbolic(uint256)", "check_flag()"
+    where, kind = p["where"], p["kind"]
+    arg = [("push", 4), "CALLDATALOAD"]
+    blob = creation_code(assemble(unsupported_items(kind, arg) + ["STOP"]))
+
+    def t_items(off):
+        it = l3.dispatcher([(ssig, "S"), (tsig, "F")])
+        it += [("label", "S"), "POP"]
+        if where == "call":
+            it += [("pushn", 2, len(blob)), ("pushn", 2, off), "PUSH0", "CODECOPY", ("pushn", 2, len(blob)), "PUSH0", "PUSH0", "CREATE"]   # helper address
+            it += ["CALLDATASIZE", "PUSH0", "PUSH0", "CALLDATACOPY"]
+            it += ["PUSH0", "PUSH0", "CALLDATASIZE", "PUSH0", "PUSH0", "DUP6", ("pushn", 3, 0xFFFFFF), "CALL", "POP", "POP"]
+        else:
+            it += unsupported_items(kind, arg)
+        it += [("push", 1), "PUSH0", "SSTORE", "STOP"]
+        it += [("label", "F"), "POP", "PUSH0", "SLOAD", ("push", 1), "EQ", ("ref", "P"), "JUMPI", "STOP", ("label", "P")] + l3.panic_items(1)
+        return it + [("raw", blob)]
+
+    tmp = assemble(t_items(0))
+    off = len(tmp) - len(blob)
+    rt = assemble(t_items(off))
+    assert rt[off:] == blob
+    t = l3.Contract("T", [("setUpSymbolic", ["uint256"]), ("check_flag", [])], rt)
+    truth = [[[l3.FOUNDRY_TEST, (l3.selector(ssig) + x.to_bytes(32, "big")).hex()], [l3.FOUNDRY_TEST, l3.selector(tsig).hex()]] for x in (0, 32)]
+    return {"contracts": [t], "test": tsig, "truth": truth, "concrete_loop": False}
+
+
+BUILDERS = {"stuck_setup": build_stuck_setup, "regular": build_regular, "depth": build_depth, "width": build_width, "setup": build_setup, "invariant": build_invariant,
             "depth_multi": build_depth_multi, "stuck": build_stuck}
 
 
@@ -404,4 +436,7 @@ def gen_cases(r, tier):
         stuck = [(w, k) for w in ("top", "call", "staticcall", "delegatecall", "create") for k in ("mstore_sym", "mload_sym", "sha3_sym")]
     for w, k in stuck:
         cases.append({"family": "stuck", "params": {"where": w, "kind": k}, "options": []})
+    # ... and in setUp
+    for w, k in ([("call", "mstore_sym"), ("top", "mstore_sym")] if tier == "quick" else [(w, k) for w in ("call", "top") for k in ("mstore_sym", "mload_sym", "sha3_sym")]):
+        cases.append({"family": "stuck_setup", "params": {"where": w, "kind": k}, "options": []})
     return cases
